@@ -383,6 +383,8 @@ func genHooks(rng *vlib.Rand, id int) Scenario {
 		return genHooksDirected(rng, id)
 	case x < 45:
 		return genHookPark(rng, id)
+	case x < 65:
+		return genHookChain(rng, id)
 	}
 	sc := Scenario{ID: id, Class: "hooks", Delay: Delay{Mode: "idle"}}
 	if rng.Chance(60, 100) {
@@ -400,8 +402,8 @@ func genHooks(rng *vlib.Rand, id int) Scenario {
 			n = rng.Range(20, 40)
 		}
 		for i := 0; i < n; i++ {
-			op := OpSpec{Kind: pickKind(rng, []string{"get", "put", "del", "secret", "crown", "insert", "expiry", "relexpiry"}, []int{35, 35, 13, 4, 3, 6, 2, 2}), Dir: vlib.Pick(rng, dirs...), N: rng.Intn(8)}
-			if op.Kind == "put" {
+			op := OpSpec{Kind: pickKind(rng, []string{"get", "put", "del", "secret", "crown", "insert", "expiry", "relexpiry", "putexp"}, []int{35, 32, 13, 4, 3, 6, 2, 2, 3}), Dir: vlib.Pick(rng, dirs...), N: rng.Intn(8)}
+			if op.Kind == "put" || op.Kind == "putexp" {
 				op.Score, op.Tag = genScore(rng), vlib.Pick(rng, tags...)
 			}
 			ws.Ops = append(ws.Ops, op)
